@@ -184,6 +184,14 @@ def directed_scenarios(tier):
         out.append(grow("eqtips-grow-outline-d1", "outline", d=1))
         out.append(grow("eqtips-grow-outline-d9-v1win", "outline", trunk=19, d=9, v1Window="alt"))
         out.append(grow("eqtips-grow-both-via-third", "both", nodes3=True, gapMs=400))
+    # small per-subnet in-flight RPC caps on the node that holds the heaviest fork: a deep fork means many fork-point probes
+    # that the server answers with an ERROR (SendHeaders for an id not on its best chain) before the real fork point is
+    # offered; erroring, cancelled and over-budget RPCs must all give their slot back
+    for cap, d, extra in [(6, 9, {}), (2, 11, {}), (4, 17, dict(n1=dict(maxInflightSubnet=3))), (8, 40, {})]:
+        out.append(two("inflightcap%d-d%d" % (cap, d), 25, d + 3, d, n0=dict(maxInflightSubnet=cap), **extra))
+    out.append(dict(two("inflightcap3-line3-d9", 25, 12, 9, n0=dict(maxInflightSubnet=3, maxInflight=2)),
+                    nodes=[dict(name="n0", branch="a", maxInflightSubnet=3, maxInflight=2), dict(name="n1", branch="b"), dict(name="n2", branch="b", back=4)],
+                    edges=[[1, 0], [2, 0]]))
     # both forks SPEND THE SAME pre-fork output (the miner payout of block 1): the lighter fork a, held by n0, at height
     # spendA, the heavier fork b at spendB.  n0 must revert its spend exactly when it reorgs to b -- around the v2 allow /
     # require heights, where the store's v1 element bookkeeping starts and stops (below require: v1 block + v1 transaction,
